@@ -122,7 +122,7 @@ func Wire(c *Ctx) error {
 	o := genOpts{MaxEntries: 30, Special: true, Xattrs: true, Links: true, BigFiles: true, LongNames: true}
 	uni := SmallUniverse()
 	if c.What == "sender" {
-		n := 260
+		n := 420
 		if c.Thorough() {
 			n = 6000
 		}
